@@ -46,7 +46,7 @@ def run(v):
         rp = dict(iv.get("replay") or {})
         steps = rp.get("steps")
         if steps:
-            rp["case_lines"] = ["upload_run\t%s\t()" % steps]
+            rp["case_lines"] = ["upload_run\t(%s)\t()" % steps]
         v.violation(iv["signature"], iv["detail"], rp, True)
     inv_bad = [m for m in mism if m["entry"] == "upload_inv_ok"]
     run_bad = [m for m in mism if m["entry"] == "upload_run"]
